@@ -18,6 +18,15 @@ Inductive case :=
        (queries : list (tag * tag))     (* isa? questions asked at the end *)
        (tags : list tag).               (* tags whose parents/ancestors/descendants are read at the end *)
 
+(** the universe, tag list and isa? questions the generator uses (so that case literals stay small) *)
+Definition std_univ : list tag := [K 1; K 2; K 3; K 4; K 5; C 1; C 2; C 3]%N.
+Definition std_tags : list tag := std_univ ++ [C 0; K 0]%N.
+Definition std_qs : list (tag * tag) :=
+  flat_map (fun a => map (fun b => (a, b)) (std_univ ++ [C 0]%N)) std_univ
+  ++ [(V [K 1], V [K 1; K 2]); (V [K 1; K 2], V [K 1]); (V [], V [K 1]);
+      (V [K 1; C 2], V [K 2; K 3]); (V [V [K 1]], V [V [K 2]]); (V [K 1], K 1);
+      (K 1, V [K 1]); (V [C 2; K 1], V [C 1; K 1])]%N.
+
 Record hdump := {
   d_isa : list bool;
   d_par : list (list tag);
@@ -26,8 +35,13 @@ Record hdump := {
 }.
 
 Inductive out :=
-| OOut (steps : list (sres * list res)) (final : list res) (dump : hdump)
-| OErr (n : N).                         (* the harness could not run the case *)
+| OOut (steps : list sres) (dump : hdump)   (* per step: its result, then (if probing) the probe calls *)
+| OErr (n : N).                             (* the harness could not run the case *)
+
+(** the history actually executed: a call of every dispatch value of the universe after
+    every step (when [every]) and always at the end *)
+Definition expand (every : bool) (univ : list tag) (ops : list op) : list op :=
+  flat_map (fun o => o :: (if every then map OCall univ else [])) ops ++ map OCall univ.
 
 Definition set_incl (a b : list tag) : bool := forallb (fun x => tmem x b) a.
 Definition set_eqb (a b : list tag) : bool := set_incl a b && set_incl b a.
@@ -45,17 +59,13 @@ Fixpoint list_eqb {A} (f : A -> A -> bool) (a b : list A) : bool :=
   | _, _ => false
   end.
 
-Definition step_eqb (a b : sres * list res) : bool :=
-  sres_eqb (fst a) (fst b) && list_eqb res_eqb (snd a) (snd b).
-
 Definition dump_eqb (a b : hdump) : bool :=
   list_eqb Bool.eqb (d_isa a) (d_isa b) && list_eqb set_eqb (d_par a) (d_par b)
   && list_eqb set_eqb (d_anc a) (d_anc b) && list_eqb oset_eqb (d_desc a) (d_desc b).
 
 Definition out_eqb (a b : out) : bool :=
   match a, b with
-  | OOut s1 f1 d1, OOut s2 f2 d2 =>
-      list_eqb step_eqb s1 s2 && list_eqb res_eqb f1 f2 && dump_eqb d1 d2
+  | OOut s1 d1, OOut s2 d2 => list_eqb sres_eqb s1 s2 && dump_eqb d1 d2
   | OErr x, OErr y => N.eqb x y
   | _, _ => false
   end.
@@ -67,10 +77,9 @@ Definition id_shuffle (l : list (tag * N)) := l.
 Definition model (c : case) : out :=
   match c with
   | Case d every univ ops qs tags =>
-      let (steps, w) := run_probed c_supers c_sub id_shuffle every univ (init d) ops in
-      let (final, w') := probe c_supers c_sub w univ in
-      let h := w_hier w' in
-      OOut steps final
+      let (steps, w) := run c_supers c_sub id_shuffle (init d) (expand every univ ops) in
+      let h := w_hier w in
+      OOut steps
            {| d_isa := map (fun q => isa c_supers c_sub h (fst q) (snd q)) qs;
               d_par := map (parents c_bases h) tags;
               d_anc := map (ancestors c_supers h) tags;
@@ -85,33 +94,17 @@ Definition op_tags (o : op) : list tag :=
   | OPrefer x y | ODerive x y | OUnderive x y => [x; y]
   end.
 
-Fixpoint spec_steps (every : bool) (univ : list tag) (s : sstate) (ops : list op)
-         (obs : list (sres * list res)) : option sstate :=
-  match ops, obs with
-  | [], [] => Some s
-  | o :: r, (sr, ps) :: obs' =>
-      let (sr', s') := s_step c_supers s o in
-      if sres_eqb sr sr'
-         && list_eqb res_eqb ps (if every then map (s_call c_supers s') univ else [])
-      then spec_steps every univ s' r obs'
-      else None
-  | _, _ => None
-  end.
-
 Definition spec_ok (c : case) (o : out) : bool :=
   match c, o with
-  | Case d every univ ops qs tags, OOut steps final dump =>
-      match spec_steps every univ (s_init d) ops steps with
-      | None => false
-      | Some s =>
-          let P := sP s in
-          let all := tags ++ univ ++ flat_map op_tags ops ++ [C 0; C 1; C 2; C 3]%N in
-          list_eqb res_eqb final (map (s_call c_supers s) univ)
-          && list_eqb Bool.eqb (d_isa dump) (map (fun q => isa_ref_b c_supers P (fst q) (snd q)) qs)
-          && list_eqb set_eqb (d_par dump) (map (parents_ref c_bases P) tags)
-          && list_eqb set_eqb (d_anc dump) (map (ancestors_ref c_supers P all) tags)
-          && list_eqb oset_eqb (d_desc dump)
-                      (map (fun x => if is_class x then None else Some (descendants_ref P all x)) tags)
-      end
+  | Case d every univ ops qs tags, OOut steps dump =>
+      let (ref, s) := s_run c_supers (s_init d) (expand every univ ops) in
+      let P := sP s in
+      let all := tags ++ univ ++ flat_map op_tags ops ++ [C 0; C 1; C 2; C 3]%N in
+      list_eqb sres_eqb steps ref
+      && list_eqb Bool.eqb (d_isa dump) (map (fun q => isa_ref_b c_supers P (fst q) (snd q)) qs)
+      && list_eqb set_eqb (d_par dump) (map (parents_ref c_bases P) tags)
+      && list_eqb set_eqb (d_anc dump) (map (ancestors_ref c_supers P all) tags)
+      && list_eqb oset_eqb (d_desc dump)
+                  (map (fun x => if is_class x then None else Some (descendants_ref P all x)) tags)
   | _, _ => false
   end.
